@@ -4,7 +4,9 @@ SPEC = {
     "level_note": "Trusted: Coq kernel + vm_compute; the Go driver and the rendering of cases; net/netip Prefix.Contains / IsSingleIP / Addr.Compare are modelled arithmetically (Base.IP) and sampled by the correspondence; the rtnetlink loopback route dump is outside the model.",
     "drivers": [{"pkg": "internal/plugin", "test": "TestVerifC15"},
                 # the rtnetlink layer that produces the loopback route dump (shared with C13)
-                {"pkg": "internal/system", "test": "TestVerifC13Addresser", "corr_module": "Corr.C13sys"}],
+                {"pkg": "internal/system", "test": "TestVerifC13Addresser", "corr_module": "Corr.C13sys"},
+                # real parallelism: wildcard expansions of several interfaces at the same time
+                {"pkg": "internal/plugin", "test": "TestVerifParallelApply", "arch386": []}],
     "rule": "bounded-exhaustive: every sequence with repetition of length <= 3 (quick) / <= 4 (thorough) over a 14-entry pool "
             "(= all subsets x all permutations, plus all multiplicities) with /32 > /48 > /64 at the same base, /48 and /64 at other "
             "bases, /128s at a covered base and elsewhere, ::/0, fd00::/8 > /64, IPv4 routes incl. 0.0.0.0/0, one non-canonical "
